@@ -68,6 +68,33 @@ func heredocRules() lexer.Rules {
 	}
 }
 
+// quoteRules closes a string with \0: "the same quote that opened it". The
+// whole match (group 0) is the only thing that distinguishes the cache keys.
+func quoteRules() lexer.Rules {
+	return lexer.Rules{
+		"Root": {
+			{Name: "Open", Pattern: `["'` + "`" + `]`, Action: lexer.Push("Str")},
+			{Name: "Ident", Pattern: `[a-z]+`},
+			{Name: "WS", Pattern: `\s+`},
+		},
+		"Str": {
+			{Name: "Close", Pattern: `\0`, Action: lexer.Pop()},
+			{Name: "Char", Pattern: `[^\n]`},
+		},
+	}
+}
+
+func quoteInput(r *mon.RNG) string {
+	var sb strings.Builder
+	for i := r.Range(1, 4); i > 0; i-- {
+		q := r.Pick(`"`, `'`, "`")
+		body := r.Pick("it's", `say "hi"`, "a`b", "x", "", `'"`)
+		body = strings.ReplaceAll(body, q, "")
+		sb.WriteString(q + body + q + " w ")
+	}
+	return sb.String()
+}
+
 func heredocInput(r *mon.RNG) string {
 	delims := []string{"EOF", "END", "A", "B.", "C*", "D+", "EOT", "X", "Y", "ZZ", "a.b", "Q*Q"}
 	var sb strings.Builder
@@ -224,12 +251,28 @@ func c09Child(c *mon.Child) {
 			return
 		}
 		hr := c.RNG("heredoc", round)
-		type hcase struct{ in, want string }
+		type hcase struct {
+			in, want string
+			def      *lexer.StatefulDefinition
+		}
 		var hcases []hcase
 		for i := 0; i < 12; i++ {
 			in := heredocInput(hr)
 			lx, _ := freshDef.LexString("h", in)
-			hcases = append(hcases, hcase{in, toksCanon(lexer.ConsumeAll(lx))})
+			hcases = append(hcases, hcase{in, toksCanon(lexer.ConsumeAll(lx)), sharedDef})
+		}
+		// a second shared definition whose back-reference is \0; every expectation comes from its own fresh definition
+		sharedQ, errq := lexer.New(quoteRules())
+		if errq != nil {
+			c.Violation("", key, "quote definition does not build: "+errq.Error(), nil)
+			c.End(key)
+			return
+		}
+		for i := 0; i < 8; i++ {
+			in := quoteInput(hr)
+			fq, _ := lexer.New(quoteRules())
+			lx, _ := fq.LexString("h", in)
+			hcases = append(hcases, hcase{in, toksCanon(lexer.ConsumeAll(lx)), sharedQ})
 		}
 		type gres struct {
 			bad       []string
@@ -251,7 +294,7 @@ func c09Child(c *mon.Child) {
 				for i := 0; i < len(hcases); i++ {
 					hc := hcases[(i+g)%len(hcases)]
 					t0 := atomic.AddInt64(&clock, 1)
-					lx, _ := sharedDef.LexString("h", hc.in)
+					lx, _ := hc.def.LexString("h", hc.in)
 					got := toksCanon(lexer.ConsumeAll(lx))
 					t1 := atomic.AddInt64(&clock, 1)
 					res.intervals = append(res.intervals, c09Interval{"backref-definition", g, t0, t1})
